@@ -104,6 +104,45 @@ def r10_3(chk, P, E):
            'vorbisfile.c never assigns a decoder field itself' if not bad else f'{bad[0][0].name} stores {bad[0][2]}.{bad[0][3]} directly')
 
 
+def r10_4(chk, P):
+    chk.rule('R10.4', 'each link\'s headers are parsed from that link\'s own stream: in _fetch_headers, whatever ready_state the '
+             'handle has on entry (the bisection of a chained file calls it once per link, each time after a successful '
+             'previous call), every path to the success return has performed the prospective stream set-up of this call '
+             '(ogg_stream_reset_serialno to the page\'s serial number and the store ready_state=STREAMSET), and that store is '
+             'reached only when vorbis_synthesis_idheader accepted the packet (K2: K4 values partitioned by the event flag)')
+    F = P.need('_fetch_headers')
+    setters = [('setup', k2.is_store_field('OggVorbis_File', 'ready_state', 3), True),
+               ('reset', k2.is_call('ogg_stream_reset_serialno'), True)]
+    A, h = k2.analyse(P, F, setters)
+    n = 0
+    bad = {}
+    for (e, fl, v, env) in k2.ret_value_classes(A):
+        if v is None or not (v.lo <= 0 <= v.hi):
+            continue
+        n += 1
+        if not {'setup', 'reset'} <= fl:
+            bad.setdefault(e, set()).add(tuple(sorted(fl)))
+    chk.require(n > 0, '_fetch_headers: no success return seen')
+    e0 = sorted(bad)[0] if bad else None
+    chk.ob('R10.4', F.name, 'success-only-after-stream-setup-in-this-call', not bad, F.where(e0) if e0 else F.where(),
+           f'{n} success-return states, all after ogg_stream_reset_serialno and ready_state=STREAMSET in this call' if not bad else
+           f'the return on line {F.loc(e0)} reports success on a path that did not set the stream up (events seen: '
+           f'{sorted(bad[e0])}): entered with ready_state>=STREAMSET the headers are parsed from the previous link\'s stream state')
+    st = [e for e in F.pos if F.ex[e]['k'] == 'assign' and k2.is_store_field('OggVorbis_File', 'ready_state')(A, {}, e)
+          and common.const_val(F, F.ex[e]['c'][1]) == 3]
+    chk.require(st, '_fetch_headers: store ready_state=STREAMSET not found')
+    for i, e in enumerate(sorted(st, key=lambda x: F.ex[x]['loc'])):
+        conds = common.controlling_conditions(F, e)
+
+        def has_call(c, name):
+            nd = F.ex[c]
+            return (nd['k'] == 'call' and nd['callee'].get('d') == name) or any(has_call(x, name) for x in nd.get('c', []))
+        ok = any(pol and has_call(c, 'vorbis_synthesis_idheader') for c, pol in conds)
+        chk.ob('R10.4', F.name, f'streamset-only-for-a-vorbis-id-header#{i}', ok, F.where(e),
+               'the store is control-dependent on vorbis_synthesis_idheader(&op) being true' if ok else
+               'ready_state becomes STREAMSET without the packet having been recognised as a vorbis identification header')
+
+
 def run(chk, P):
     E = getattr(P, '_effects', None) or k3.Effects(P)
     P._effects = E
@@ -129,6 +168,8 @@ def run(chk, P):
     chk.floor('R10.1', 2)
     r10_2(chk, P)
     chk.floor('R10.2', 3)
+    r10_4(chk, P)
+    chk.floor('R10.4', 2)
     r10_3(chk, P, E)
     chk.floor('R10.3', 8)
     chk.trusted += ['clang 14 front end', 'K3 effect analysis', 'call graph']
